@@ -591,7 +591,7 @@ def gen_sched(tier, seed):
                  ('conform14_user_alias', 'conform14_apm_vcv')):
         yield {'threads': [[a, a], [b]], 'bound': 1}
     # two threads working on the SAME caller-owned object
-    quick_objs = ('geo2d', 'tderived', 'vcv', 'obs', 'tm', 'parr', 'ntv2')
+    quick_objs = ('geo2d', 'tderived', 'vcv', 'obs', 'tm', 'parr')      # the NTv2 grid object: thorough tier here, and C17's own 'threads' sub-check
     for oname in sorted(SHARED):
         if tier != 'thorough' and oname not in quick_objs:
             continue
@@ -600,7 +600,8 @@ def gen_sched(tier, seed):
             calls = calls[:3]
         for i, a in enumerate(calls):
             for b in calls[i:]:
-                yield {'threads': [[a], [b]], 'bound': 2 if tier == 'thorough' and oname in ('geo2d', 'tderived') else 1, 'shared': True}
+                yield {'threads': [[a], [b]], 'bound': 2 if tier == 'thorough' and oname in ('geo2d', 'tderived') else 1, 'shared': True,
+                       'deep': tier == 'thorough' and oname != 'ntv2'}
     if tier == 'thorough':
         for a in SEAM[:8]:
             yield {'threads': [[a], ['add_date'], ['conform14_itrf08_vcv']], 'bound': 1}
@@ -667,8 +668,12 @@ def ev_sched(case, rec):
     files = traced_files(dirty_modules())
     if case.get('shared'):
         # the modules that own / read the shared object get scheduling points too
-        for f in ('geodepy/survey.py', 'geodepy/convert.py') + (('geodepy/angles.py',) if 'dms' in threads[0][0] else ()) \
-                + (('geodepy/ntv2reader.py',) if 'ntv2' in threads[0][0] else ()):
+        own = threads[0][0].split('.')[0]
+        extra = {'obs': ('geodepy/survey.py',), 'parr': ('geodepy/survey.py',), 'dms': ('geodepy/angles.py',),
+                 'ntv2': ('geodepy/ntv2reader.py',)}.get(own, ())
+        if case.get('deep'):
+            extra = extra + ('geodepy/convert.py',)
+        for f in extra:
             files.add(os.path.realpath(os.path.join(REPO, f)))
     opcode = bool(case.get('opcode'))
     if 'schedule' in case:                 # replay of one recorded schedule
